@@ -177,12 +177,7 @@ def _havoc_unless(ex, st, keep, tag):
     """arbitrary Python code may run unless `keep`: raw memory and all field heaps become unknown"""
     if ex.known(st, keep):
         return                   # `keep` holds on every execution reaching this point: nothing is havocked
-    newraw = ex.fresh('raw_after_' + tag, z3.ArraySort(B64, B8))
-    st.raw = z3.If(keep, st.raw, newraw)
-    for key in list(st.fh):
-        st.fh[key] = z3.If(keep, st.fh[key], ex.fresh('H_after_' + tag, st.fh[key].sort()))
-    for gk in list(st.ghost):
-        st.ghost[gk] = z3.If(keep, st.ghost[gk], ex.fresh('g_after_' + tag, st.ghost[gk].sort()))
+    st.havoc('after_' + tag, keep=keep)
 
 
 @R.model('PyLong_AsUnsignedLongLong',
@@ -315,11 +310,7 @@ def _memset(ex, st, args, n):
 
 def _indirect(ex, st, args, n):
     """call through a function pointer into unknown (Python) code: everything may change"""
-    st.raw = ex.fresh('raw_after_indirect', z3.ArraySort(B64, B8))
-    for key in list(st.fh):
-        st.fh[key] = ex.fresh('H_after_indirect', st.fh[key].sort())
-    for gk in list(st.ghost):
-        st.ghost[gk] = ex.fresh('g_after_indirect', st.ghost[gk].sort())
+    st.havoc('after_indirect')
     res = ex.fresh('ret_indirect', B64)
     e = ex.fresh('err_indirect', B64)
     st.err = e
